@@ -21,6 +21,7 @@ FN = {
     "other": ("other", "y", "other"),
     "deco": ("deco", "x", "deco"),
     "inner": ("inner", "x", "inner"),
+    "mk": ("mk", "c0", "mk"),  # the factory enclosing `inner` (its nested def is recompiled when probed)
     "K.meth": ("k1.meth", "x", "K.meth"),
     "Sub.other": ("s1.other", "y", "Sub.other"),
     "E.meth": ("e1.meth", "x", "E.meth"),
